@@ -455,6 +455,9 @@ func (f *fnTrans) binop(ins *ssa.BinOp) {
 		f.vals[ins] = Ge(x, y)
 	case token.ADD, token.SUB, token.MUL:
 		op := map[token.Token]string{token.ADD: "+", token.SUB: "-", token.MUL: "*"}[ins.Op]
+		if op == "*" {
+			op = mulOp(x, y)
+		}
 		r := App(op, SInt, x, y)
 		f.safety("wrap", fmt.Sprintf("no wrap-around in %s", ins), ins.Pos(), inRange(r, ins.Type()))
 		f.vals[ins] = f.define("ar_"+ins.Name(), r)
